@@ -4,7 +4,7 @@ Lemmas about the emission switch of `Model.EditDoc` (for C07_removed_content).
 import LolHtml.Model.EditDoc
 
 namespace LolHtml.Lemmas.EditDoc
-open LolHtml LolHtml.Model
+open LolHtml LolHtml.EditModel
 
 /-- Number of open elements whose content is being removed. -/
 def countRemoved (stack : List StackItem) : Nat :=
